@@ -839,9 +839,9 @@ class FieldValueMimeType(FieldValueComponentBase):
     def _parse(cls, parsable):
         parser = ParserText(parsable)
 
-        parser.parse_string_until_separator('registry', '/', item_class=MimeTypeRegistry)
+        parser.parse_string_until_separator('registry', '/', item_class=lambda value: MimeTypeRegistry(value.lower()))
         parser.parse_separator('/')
-        parser.parse_string_by_length('type', parser.unparsed_length)
+        parser.parse_string_by_length('type', parser.unparsed_length, item_class=lambda value: value.lower())
 
         return FieldValueMimeType(**parser), parser.parsed_length
 
